@@ -49,7 +49,7 @@ def requests(r, n):
                 "threads": int(r.choice([1, 2, 4, 16])), "timeout": 60.0}
         L = int(r.integers(1, 7))
         pos = int(r.integers(0, L))
-        kind = str(r.choice(["solve_bad", "solve_ok", "ray_bad_end", "ray_budget", "ray_ok", "nograd"]))
+        kind = str(r.choice(["solve_bad", "solve_ok", "ray_bad_end", "ray_budget", "ray_ok", "nograd", "ray_mixed"]))
         if kind == "solve_bad":
             bad, why = outside_point(r, ext, o, how)
             form = str(r.choice(["single", "list"]))
@@ -77,6 +77,21 @@ def requests(r, n):
                 srcs = inside() if form == "single" else [inside() for _ in range(L)]
             out.append(dict(base, kind="solve", sources=srcs, expect="ok",
                             meta={"req": kind, "form": form, "L": L, "nd": nd}))
+        elif kind == "ray_mixed":
+            # a list holding both kinds of invalid item (an end point outside and a ray that exhausts a budget of 2):
+            # list = mapM single, so the error of the first invalid item in input order is raised
+            hg = bool(r.integers(0, 2))
+            shb = (int(r.integers(5, 8)),) + tuple(m["shape"][1:])
+            src = [o[0] + 0.5 * m["gridsize"][0]] + [o[a] + float(r.uniform(0.05, 0.95)) * ext[a] for a in range(1, nd)]
+            far = [o[0] + (shb[0] - 0.5) * m["gridsize"][0]] + [o[a] + float(r.uniform(0.05, 0.95)) * ext[a] for a in range(1, nd)]
+            mext = [shb[a] * m["gridsize"][a] for a in range(nd)]
+            bad, why = outside_point(r, mext, o, how)
+            L2 = int(r.integers(2, 7))
+            i_bad, i_far = [int(x) for x in r.choice(L2, 2, replace=False)]
+            pts = [bad if k == i_bad else (far if k == i_far else list(src)) for k in range(L2)]
+            out.append(dict(base, kind="raytrace", source=src, points=pts, kw={"honor_grid": hg, "max_step": 2},
+                            expect="ValueError:endpoint" if i_bad < i_far else "RuntimeError:maxsteps", grid=np.full(shb, 2.0),
+                            meta={"req": kind, "form": "list", "L": L2, "pos": (i_bad, i_far), "why": why, "nd": nd}))
         elif kind in ("ray_bad_end", "ray_budget", "ray_ok"):
             src = inside()
             hg = bool(r.integers(0, 2))
